@@ -561,7 +561,7 @@ static inline void pack_bits_19(const uint64_t* values, uint8_t* ptr) {
   *ptr = static_cast<uint8_t>(values[3] << 4);
   *ptr++ |= static_cast<uint8_t>(values[4] >> 15);
 
-  *ptr++ |= static_cast<uint8_t>(values[4] >> 7);
+  *ptr++ = static_cast<uint8_t>(values[4] >> 7);
 
   *ptr = static_cast<uint8_t>(values[4] << 1);
   *ptr++ |= static_cast<uint8_t>(values[5] >> 18);
